@@ -642,7 +642,7 @@ MANIFEST_INFO = {
                technique='fault-set enumeration over generated operation scripts with a reference-model oracle'),
     'C17': _mi('exploration', '5/C17', 'Built-in hashes evaluated exhaustively on small domains and on the whole float grid of the scale factor with worst-case keys; histories with a hash function that misbehaves at a generated call must abort in that call.', _N,
                technique='exhaustive + boundary + random evaluation of the pure hash functions; stateful PBT with an injected out-of-range hash value'),
-    'C18': _mi('exploration', '5/C18', 'Generated client programs (every header alone, ordered pairs, all together; 1 and 2 TUs; .a and .so; include-only and address-of-every-function) built with the project flags against the Makefile-built library.', 'gcc + project Makefile; only compiler/linker/program exit status and exported symbols decide',
+    'C18': _mi('exploration', '5/C18', 'Generated client programs (every header alone, ordered pairs, all together; 1 and 2 TUs; .a and .so; include-only and address-of-every-function; each header twice in one TU; each header as a plain C99 client without the private feature-test macro of the library build) built with the project flags against the Makefile-built library.', 'gcc + project Makefile; only compiler/linker/program exit status and exported symbols decide',
                technique='generated client programs (configuration enumeration + seeded sampling) with compile/link/run oracle', engine='vcheck'),
     'C19': _mi('exploration', '5/C19', 'Unique-key hash histories with logging hash functions: load after every resize, per-operation call log must be lookups + relocations from <= 3 buckets, single lookup once finished and after at most B keyed ops.', _N),
     'C20': _mi('exploration', '5/C20', 'Exhaustive table (kind x state x entry point x argument position x copy method) of calls on bitwise copies must abort; original keeps answering; objects moved with the provided functions are used in place and never abort, also throughout generated C05/C14 histories.', _N),
